@@ -4,6 +4,9 @@ pub mod c03;
 pub mod c05;
 pub mod c07;
 pub mod c15;
+pub mod c18;
+pub mod c19;
+pub mod c20;
 pub mod c12;
 pub mod c14;
 pub mod syncsys;
@@ -50,6 +53,8 @@ pub fn replay_file(path: &std::path::Path) -> i32 {
         },
         "c07-trace" => verdict("C07", path, c07::replay(case)),
         "c15-trace" => verdict("C15", path, c15::replay(case)),
+        "c19-trace" => verdict("C19", path, c19::replay(case)),
+        "c18-map" => verdict("C18", path, c18::replay(case)),
         "c05-case" => verdict("C05", path, c05::replay(case)),
         k if k.starts_with("c03-") => match c03::replay(case) {
             Ok(()) => {
